@@ -294,7 +294,8 @@ def run(ctx):
                 dump = open(out2 + '.err').read()
                 ctx.traces_validated += 1
                 ctx.divergences.append({'case': {'mode': 'stall', 'seed': seed, 'race': i < 0},
-                                        'result': {'step': -1, 'patterns': [], 'msg': 'the workload made no progress for the watchdog period, '
+                                        'result': {'step': -1, 'patterns': [PAT_CLOSE_DEADLOCK] if close_delete_deadlock(dump) else [],
+                                                   'msg': 'the workload made no progress for the watchdog period, '
                                                    'twice with the same seed; goroutine dump: ' + dump[-6000:]}})
                 continue
             # not reproducible: inconclusive (exit 2) -- unless something else of this run is a violation, which is reported first
